@@ -5,8 +5,8 @@ import (
 	"go/constant"
 	"go/token"
 	"go/types"
-	"sort"
 	"regexp"
+	"sort"
 	"strings"
 
 	"golang.org/x/tools/go/ssa"
@@ -1191,6 +1191,21 @@ func checkPadding(r *Report, a *Analysis, sc *Scope, rule string, strict bool) {
 		}
 		cands = append(cands, fn)
 	}
+	// ... or the same stripping written out in the decrypting function: x[:len(x)-int(x[len(x)-1])]
+	bufOf := map[*ssa.Function]string{}
+	for _, fn := range sortedFns(p, sc.Decrypt) {
+		dup := false
+		for _, c := range cands {
+			dup = dup || c == fn
+		}
+		if dup {
+			continue
+		}
+		if buf, ok := padStripBuf(a.Ctx(fn)); ok {
+			bufOf[fn] = buf
+			cands = append(cands, fn)
+		}
+	}
 	if len(cands) == 0 {
 		panic(unresolved{"role padding stripper (xmlenc func([]byte) ([]byte, error) under Decrypt)"})
 	}
@@ -1200,6 +1215,9 @@ func checkPadding(r *Report, a *Analysis, sc *Scope, rule string, strict bool) {
 		r.Fn(p.FnName(fn))
 		rej := fc.RejectFormula()
 		buf := fc.AP(fn.Params[0])
+		if b2, ok := bufOf[fn]; ok {
+			buf = b2
+		}
 		// atoms
 		var emptyA, padLt1, padGtLen, padGtLenM1 string
 		for name, ai := range a.Atoms {
@@ -1257,6 +1275,44 @@ func checkPadding(r *Report, a *Analysis, sc *Scope, rule string, strict bool) {
 			r.Bad(rule, c3, p.Pos(fn.Pos()), "no upper bound on the padding length")
 		}
 	}
+}
+
+// padStripBuf: the function slices x[:len(x)-int(x[len(x)-1])]; gives the access path of x.
+func padStripBuf(fc *FuncCtx) (string, bool) {
+	for _, b := range fc.Fn.Blocks {
+		for _, in := range b.Instrs {
+			sl, ok := in.(*ssa.Slice)
+			if !ok || sl.Low != nil || sl.High == nil || types.TypeString(sl.X.Type(), nil) != "[]byte" {
+				continue
+			}
+			hi, ok := sl.High.(*ssa.BinOp)
+			if !ok || hi.Op != token.SUB {
+				continue
+			}
+			la := lenArg(hi.X)
+			if la == nil || fc.AP(la) != fc.AP(sl.X) {
+				continue
+			}
+			k := hi.Y
+			for {
+				if cv, ok := k.(*ssa.Convert); ok {
+					k = cv.X
+					continue
+				}
+				break
+			}
+			ld, ok := k.(*ssa.UnOp)
+			if !ok || ld.Op != token.MUL {
+				continue
+			}
+			ia, ok := ld.X.(*ssa.IndexAddr)
+			if !ok || fc.AP(ia.X) != fc.AP(sl.X) {
+				continue
+			}
+			return fc.AP(sl.X), true
+		}
+	}
+	return "", false
 }
 
 var _ = sort.Strings
